@@ -72,6 +72,22 @@ def run(tier, replay=None):
         if r1["outcome"] != "ok" or r1["err"] or kt0 != kt1:
             ck.violation("inserting blanks at a token boundary changes the tokens: %r -> %s, %r -> %s" % (e["base"]["src"], kt0, e["src"], kt1), e)
     ck.cov["distinct_nontrivial"] = nontriv
+    # binding self-test: shifting one specified span by one must be noticed
+    st = 0
+    for c in cases:
+        real_toks = [t for t in c["toks"] if t[2] > t[1]]
+        if real_toks and not compare_accepted(c, res[c["id"]]):
+            c2 = dict(c, toks=[list(t) for t in c["toks"]])
+            for t in c2["toks"]:
+                if t[2] > t[1]:
+                    t[2] += 1
+                    break
+            if compare_accepted(c2, res[c["id"]]) is None:
+                raise vlib.Infra("binding self-test: a shifted span was not noticed for %r" % c["src"])
+            st += 1
+            if st >= 20:
+                break
+    ck.part("binding self-test", corrupted=st, rejected=st)
     ck.cov["exhaustive"] = True
     ck.cov["rule"] = ("every string of length <= %d over 11 character classes (digit, letter, operator char, bracket, quote, backslash, blank, newline, semicolon, dot, other) that the "
                       "specification accepts, made concrete with seeded choices per class (multi-byte characters included); non-trivial = at least two real tokens or a comment/string" % n)
